@@ -202,7 +202,7 @@ HSendFrame(e, f) ==
           /\ UNCHANGED <<cfg, now, owedO, proc, oos, xvars>> /\ Acc
   ELSE OutOfScope
 
-(* a write on a TCP connection failed: like any connection failure its server is demoted; everything in flight on the
+(* a write or a read on a TCP connection failed: like any connection failure its server is demoted; everything in flight on the
    connection and everything still queued on it is requeued with one more try *)
 TcpWriteFailure(fd) ==
   LET s == fdi[fd].srv
@@ -291,11 +291,14 @@ ProcessHead == LET p == Head(proc.inbox) IN
 
 CountPacket == proc' = [proc EXCEPT !.nrecv = @ + 1]
 
+RECURSIVE PSum(_, _)
+PSum(pk, n) == IF n = 0 THEN 0 ELSE pk[n].slen + PSum(pk, n - 1)     \* bytes of the first n messages of a stream
+
 HRecv(e) ==
   IF e.fd \notin DOMAIN fdi \/ fdi[e.fd].srv = 0 THEN Skip
   ELSE IF e.res = "wb" THEN Skip
   ELSE IF e.res \in {"err", "eof"} THEN
-       IF fdi[e.fd].tcp THEN OutOfScope
+       IF fdi[e.fd].tcp THEN TcpWriteFailure(e.fd)      \* a failed read or the end of the stream: as for a failed write
        ELSE /\ ConnFailure(e.fd, "ECONNREFUSED")
             /\ proc' = [proc EXCEPT !.inbox = SelectSeq(@, LAMBDA x : x.fd # e.fd)]     \* read but never processed
             /\ UNCHANGED xvars /\ Acc
@@ -311,15 +314,20 @@ HRecv(e) ==
           ELSE IF avail < st.pk[1].slen THEN
                /\ tcpin' = [tcpin EXCEPT ![e.fd].avail = avail]
                /\ UNCHANGED <<rvars, toks, openfail, newtry>> /\ Acc
-          ELSE IF Len(st.pk) > 1 /\ avail >= st.pk[1].slen + st.pk[2].slen THEN OutOfScope
-          ELSE /\ tcpin' = [tcpin EXCEPT ![e.fd] = [avail |-> avail - st.pk[1].slen, pk |-> Tail(st.pk)]]
-               /\ HPacket(e.fd, st.pk[1]) /\ CountPacket /\ UNCHANGED <<toks, openfail, newtry>> /\ Acc
+          ELSE \* k complete messages are there now: the first is processed at once, the others wait their turn like the
+               \* datagrams of a batch (none of them if the first one fails the connection)
+               LET k == CHOOSE n \in 1..Len(st.pk) : PSum(st.pk, n) <= avail /\ (n = Len(st.pk) \/ PSum(st.pk, n + 1) > avail)
+                   rest == IF st.pk[1].parse = 0 THEN <<>> ELSE SubSeq(st.pk, 2, k)
+               IN /\ tcpin' = [tcpin EXCEPT ![e.fd] = [avail |-> avail - PSum(st.pk, k), pk |-> SubSeq(st.pk, k + 1, Len(st.pk))]]
+                  /\ HPacket(e.fd, st.pk[1])
+                  /\ proc' = [proc EXCEPT !.nrecv = @ + 1, !.inbox = @ \o rest]
+                  /\ UNCHANGED <<toks, openfail, newtry>> /\ Acc
 
 HEnv(e) ==
   IF e.op = "stream" THEN
        /\ tcpin' = [tcpin EXCEPT ![e.fd].pk = Append(@, e)]
        /\ UNCHANGED <<rvars, toks, openfail, newtry>> /\ Acc
-  ELSE IF e.op = "peerclose" THEN OutOfScope
+  ELSE IF e.op = "peerclose" THEN Skip        \* shows at the next read of that connection
   ELSE Skip
 
 (* opening a connection failed: the server chosen for this attempt is demoted (notification follows) and the
